@@ -93,21 +93,6 @@ theorem recv_strSz (hl : ∀ s, (cfg.lower s).length = s.length) (r : Rng) (b : 
     · have := h.2 _ hi
       cases ci <;> simp [hl] at this <;> exact this
 
-theorem isPrefix_trans : ∀ (p q x : List Nat), isPrefix p q = true → isPrefix q x = true → isPrefix p x = true := by
-  intro p
-  induction p with
-  | nil => intro q x _ _; simp [isPrefix]
-  | cons a as ih =>
-    intro q x h1 h2
-    cases q with
-    | nil => simp [isPrefix] at h1
-    | cons b bs =>
-      cases x with
-      | nil => simp [isPrefix] at h2
-      | cons c cs =>
-        simp [isPrefix] at h1 h2 ⊢
-        exact ⟨h1.1.trans h2.1, ih bs cs h1.2 h2.2⟩
-
 theorem foundCount_le (ms : List Member) (es : List (Val × Val)) (hn : KeysNodup es) :
     foundCount ms es ≤ ms.length := by
   induction ms with
